@@ -63,8 +63,8 @@ def generate(repo, emit, src, func_body):
 
     # ---- exception_catch: is `active` cleared when the exception is handed out?
     b = func_body(ex, r'var\s+exception_catch\s*\(\s*var\s+args\s*\)\s*\{')
-    if b and re.search(r'if\s*\(\s*not\s+e->active\s*\)\s*\{\s*return\s+NULL\s*;', b):
-        clears = bool(re.search(r'e->active\s*=\s*false', b))
+    if b:
+        clears = bool(re.search(r'active\s*=\s*false', b))
         emit('thr_clear_on_catch', 'Definition thr_clear_on_catch : bool := %s.' % _b(clears))
     else:
         emit('thr_clear_on_catch', None)
